@@ -113,7 +113,7 @@ def mnmOf (s : String) : Mnm × Bool :=
     | "mov" => some .mov | "movsx" => some .movsx | "movzx" => some .movzx | "movsxd" => some .movsxd | "lea" => some .lea
     | "movaps" => some .movaps | "movups" => some .movups | "movd" => some .movd | "movq" => some .movq | "movss" => some .movss
     | "movlps" => some .movlps | "and" => some .and_ | "sub" => some .sub | "call" => some .call
-    | "str" => some .str | "ldr" => some .ldr | "blr" => some .call
+    | "str" => some .str | "ldr" => some .ldr | "blr" => some .call | "strb" => some .strb | "strh" => some .strh
     | _ => none
   match base s with
   | some m => (m, false)
